@@ -39,7 +39,10 @@
 // The instrumentation only adds waiting on one extra mutex around non-blocking actions: every
 // behaviour of the instrumented code is a behaviour of the original code under some schedule.
 //
-//	evinst -root <scratch repo> file.go ...
+//	evinst -root <scratch repo> file.go[:option,…] ...
+//
+// Per-file options (see type options): chan=<field>, cancel=<field>, go, poll.  A deferred instant action
+// (`defer atomic.CompareAndSwapInt32(&b.state, …)`) is logged when it runs, at function exit.
 package main
 
 import (
@@ -369,6 +372,32 @@ func zzverifInV2[A, B any](site string, a A, b B) (A, B) {
 	zzverifAppend(site, zzverifFmt(any(a))+","+zzverifFmt(any(b)))
 	return a, b
 }
+
+// zzverifPause: between two polls of a polled select / channel range (option poll), outside the log mutex.
+func zzverifPause() { time.Sleep(20 * time.Microsecond) }
+
+// zzverifDeferN: a deferred instant action f(a…) (arguments evaluated at the defer statement, as in the
+// original), executed at function exit inside the log mutex together with its log entry.
+func zzverifDefer0[R any](site string, f func() R) {
+	zzverifG.Lock()
+	zzverifAppend(site, zzverifFmt(any(f())))
+	zzverifG.Unlock()
+}
+func zzverifDefer1[A, R any](site string, f func(A) R, a A) {
+	zzverifG.Lock()
+	zzverifAppend(site, zzverifFmt(any(f(a))))
+	zzverifG.Unlock()
+}
+func zzverifDefer2[A, B, R any](site string, f func(A, B) R, a A, b B) {
+	zzverifG.Lock()
+	zzverifAppend(site, zzverifFmt(any(f(a, b))))
+	zzverifG.Unlock()
+}
+func zzverifDefer3[A, B, C, R any](site string, f func(A, B, C) R, a A, b B, c C) {
+	zzverifG.Lock()
+	zzverifAppend(site, zzverifFmt(any(f(a, b, c))))
+	zzverifG.Unlock()
+}
 `
 
 // ---------------------------------------------------------------------------------------------
@@ -386,6 +415,9 @@ type inst struct {
 	// context parameter as `ctx`, so that renaming a local is invisible in the log
 	locals  map[string]bool
 	ctxName string
+	opt     *options
+	nlab    int
+	res     []ast.Expr // result types of the function body being instrumented
 }
 
 // declared collects the names declared in a function (parameters, results, :=, var, range, function literals).
@@ -481,6 +513,73 @@ func (in *inst) canon(s string) string {
 	return out.String()
 }
 
+func resultTypes(ft *ast.FuncType) []ast.Expr {
+	var out []ast.Expr
+	if ft == nil || ft.Results == nil {
+		return nil
+	}
+	for _, f := range ft.Results.List {
+		n := len(f.Names)
+		if n == 0 {
+			n = 1
+		}
+		for i := 0; i < n; i++ {
+			out = append(out, f.Type)
+		}
+	}
+	return out
+}
+
+// options of one file ("path.go:poll,go,chan=queue,cancel=interruptCtxCancel"); all off by default, so the
+// treatment of the files listed without options is unchanged.
+//
+//	strict      refuse (exit 3) a statement that mixes an instant action with a call of a method of the receiver
+//	            or of one of its fields: that method may be instrumented itself and would log / block inside the
+//	            log mutex
+//	skip=<func> leave function / method <func> as it is (not part of the replayed behaviour)
+//	chan=<f>    receiver field f is a channel: len(recv.f) is logged as the instant action Len(f)
+//	cancel=<f>  receiver field f is a context.CancelFunc: recv.f() is logged as the release action Cancel(f)
+//	go          every go statement is logged as Go(<callee>) by the spawning goroutine, inside the log mutex
+//	            (instant actions among the arguments are logged first, in the same critical section), so that
+//	            no event of the new goroutine can precede it
+//	poll        a blocking select / a range over a chan= field is turned into a polling loop whose every
+//	            attempt is a NON-blocking select executed inside the log mutex: the arm taken is logged
+//	            atomically with the channel operation (log order = real order also for receives, which a
+//	            model with a queue-length-dependent guard needs), a failed attempt releases the log mutex,
+//	            pauses and retries.  A retry is a behaviour of the blocking original (the goroutine simply
+//	            stayed blocked a little longer), the arm finally taken was ready when it was taken.  What is
+//	            lost: a rendez-vous between a non-blocking send and this (now never parked) receiver.
+//	            Two-valued receive arms log their ok.
+type options struct {
+	poll, golog bool
+	strict      bool
+	skip        map[string]bool
+	chans       map[string]bool
+	cancels     map[string]bool
+}
+
+func parseSpec(spec string) (string, *options) {
+	o := &options{chans: map[string]bool{}, cancels: map[string]bool{}, skip: map[string]bool{}}
+	path, rest, _ := strings.Cut(spec, ":")
+	for _, w := range strings.Split(rest, ",") {
+		switch {
+		case w == "poll":
+			o.poll = true
+		case w == "go":
+			o.golog = true
+		case w == "strict":
+			o.strict = true
+		case strings.HasPrefix(w, "skip="):
+			o.skip[w[5:]] = true
+		case strings.HasPrefix(w, "chan="):
+			o.chans[w[5:]] = true
+		case strings.HasPrefix(w, "cancel="):
+			o.cancels[w[7:]] = true
+		}
+	}
+	return path, o
+}
+
 func (in *inst) src(n ast.Node) string {
 	var buf bytes.Buffer
 	format.Node(&buf, in.fset, n)
@@ -574,9 +673,17 @@ func (in *inst) classify(c *ast.CallExpr) (kind, string) {
 	if id, ok := c.Fun.(*ast.Ident); ok && id.Name == "close" && len(c.Args) == 1 {
 		return kRelease, "Close(" + in.target(c.Args[0]) + ")"
 	}
+	if id, ok := c.Fun.(*ast.Ident); ok && id.Name == "len" && len(c.Args) == 1 {
+		if f, ok := in.recvField(c.Args[0]); ok && in.opt.chans[f] {
+			return kInstant, "Len(" + f + ")"
+		}
+	}
 	sel, ok := c.Fun.(*ast.SelectorExpr)
 	if !ok {
 		return kNone, ""
+	}
+	if f, ok := in.recvField(sel); ok && in.opt.cancels[f] && len(c.Args) == 0 {
+		return kRelease, "Cancel(" + f + ")"
 	}
 	if pk, ok := sel.X.(*ast.Ident); ok && pk.Name == "atomic" && len(c.Args) > 0 {
 		return kInstant, "atomic." + sel.Sel.Name + "(" + in.target(c.Args[0]) + ")"
@@ -652,6 +759,8 @@ func (in *inst) wrapInstants(e *ast.Expr) (found, blocking bool) {
 	if *e == nil {
 		return
 	}
+	nested := false
+	defer func() { blocking = blocking || (found && nested) }()
 	var walk func(p *ast.Expr)
 	walk = func(p *ast.Expr) {
 		switch v := (*p).(type) {
@@ -665,6 +774,15 @@ func (in *inst) wrapInstants(e *ast.Expr) (found, blocking bool) {
 			walk(&v.Fun)
 			k, site := in.classify(v)
 			switch k {
+			case kNone:
+				// option strict: a method of the receiver (or of one of its fields) called inside a statement that
+				// will run inside the log mutex may itself log or block (it may be an instrumented function)
+				if sel, ok := v.Fun.(*ast.SelectorExpr); ok && in.opt.strict {
+					_, onField := in.recvField(sel.X)
+					if id, isId := sel.X.(*ast.Ident); onField || (isId && in.recv != "" && id.Name == in.recv) {
+						nested = true
+					}
+				}
 			case kInstant:
 				found = true
 				if sel, ok := v.Fun.(*ast.SelectorExpr); ok && in.named(sel.X) {
@@ -829,7 +947,10 @@ func (in *inst) block(b *ast.BlockStmt) {
 func (in *inst) funcLits(n ast.Node) {
 	ast.Inspect(n, func(x ast.Node) bool {
 		if fl, ok := x.(*ast.FuncLit); ok {
+			saved := in.res
+			in.res = resultTypes(fl.Type)
 			in.block(fl.Body)
+			in.res = saved
 			return false
 		}
 		return true
@@ -918,6 +1039,18 @@ func (in *inst) stmt(s ast.Stmt) []ast.Stmt {
 			}
 			return []ast.Stmt{s}
 		}
+		if k == kInstant && !strings.HasPrefix(site, "Timer") && site != "NewTimer" {
+			// defer f(a…)  ->  defer zzverifDeferN(site, f, a…): same evaluation time of f's operands
+			// (a deferred timer/ticker Stop is left as it is: Ticker.Stop has no result)
+			n := len(v.Call.Args)
+			if n > 3 || strings.Contains(site, "Store") {
+				in.fail(s, "deferred synchronisation action of this shape")
+				return []ast.Stmt{s}
+			}
+			args := append([]ast.Expr{in.site(site), v.Call.Fun}, v.Call.Args...)
+			v.Call = call(fmt.Sprintf("zzverifDefer%d", n), args...)
+			return []ast.Stmt{s}
+		}
 		if k == kAcquire && len(v.Call.Args) == 0 {
 			// defer x.Lock()  ->  defer zzverifAcq(site, x.Lock): method value bound now, logged after it returned
 			v.Call = call("zzverifAcq", in.site(site), v.Call.Fun)
@@ -927,6 +1060,18 @@ func (in *inst) stmt(s ast.Stmt) []ast.Stmt {
 		return []ast.Stmt{s}
 	case *ast.GoStmt:
 		in.funcLits(v.Call)
+		if in.opt.golog {
+			for i := range v.Call.Args {
+				if _, blocking := in.wrapInstants(&v.Call.Args[i]); blocking {
+					in.fail(s, "go statement with a blocking argument")
+				}
+			}
+			callee := "func"
+			if _, lit := v.Call.Fun.(*ast.FuncLit); !lit {
+				callee = in.target(v.Call.Fun)
+			}
+			return []ast.Stmt{stmtOf(call("zzverifEnter")), s, stmtOf(call("zzverifIn", in.site("Go("+callee+")"))), stmtOf(call("zzverifLeave"))}
+		}
 		return []ast.Stmt{s}
 	case *ast.AssignStmt:
 		// x := <-ch  /  err := sem.Acquire(ctx, 1): blocking, logged after
@@ -981,11 +1126,18 @@ func (in *inst) stmt(s ast.Stmt) []ast.Stmt {
 				in.fail(s, "return mixes blocking and non-blocking synchronisation")
 			}
 		}
+		// an untyped nil among the results: instantiate the helper with the function's declared result types
+		var leave2 ast.Expr = ident("zzverifLeaveV2")
+		for _, r := range v.Results {
+			if id, ok := r.(*ast.Ident); ok && id.Name == "nil" && len(in.res) == 2 && len(v.Results) == 2 {
+				leave2 = &ast.IndexListExpr{X: ident("zzverifLeaveV2"), Indices: []ast.Expr{in.res[0], in.res[1]}}
+			}
+		}
 		switch len(v.Results) {
 		case 1:
 			v.Results = []ast.Expr{call("zzverifLeaveV", v.Results[0])}
 		case 2:
-			v.Results = []ast.Expr{call("zzverifLeaveV2", v.Results[0], v.Results[1])}
+			v.Results = []ast.Expr{&ast.CallExpr{Fun: leave2, Args: []ast.Expr{v.Results[0], v.Results[1]}}}
 		default:
 			in.fail(s, "return of more than two values with synchronisation inside")
 		}
@@ -1050,6 +1202,9 @@ func (in *inst) stmt(s ast.Stmt) []ast.Stmt {
 			in.fail(s, "range expression with synchronisation")
 		}
 		in.block(v.Body)
+		if f, ok := in.recvField(v.X); ok && in.opt.poll && in.opt.chans[f] {
+			return in.pollRange(v, f)
+		}
 		return []ast.Stmt{s}
 	case *ast.SwitchStmt:
 		var pre []ast.Stmt
@@ -1098,9 +1253,14 @@ func (in *inst) stmt(s ast.Stmt) []ast.Stmt {
 			if cc.Comm != nil {
 				arm = in.armName(cc.Comm)
 			}
-			if hasDefault {
+			if hasDefault || in.opt.poll {
 				// non-blocking select: the whole statement runs inside the log mutex
-				cc.Body = append([]ast.Stmt{stmtOf(call("zzverifIn", in.site("Select:"+arm))), stmtOf(call("zzverifLeave"))}, cc.Body...)
+				logit := stmtOf(call("zzverifIn", in.site("Select:"+arm)))
+				if okv := recvOk(cc.Comm); okv != "" && in.opt.poll {
+					logit = &ast.AssignStmt{Lhs: []ast.Expr{ident("_")}, Tok: token.ASSIGN,
+						Rhs: []ast.Expr{call("zzverifInV", in.site("Select:"+arm), ident(okv))}}
+				}
+				cc.Body = append([]ast.Stmt{logit, stmtOf(call("zzverifLeave"))}, cc.Body...)
 			} else if ch := recvIdent(cc.Comm); ch != "" {
 				// receive from a channel held by a local variable: its identity is logged
 				cc.Body = append([]ast.Stmt{stmtOf(call("zzverifAfterCh", in.site("Select:"+arm), ident(ch)))}, cc.Body...)
@@ -1110,6 +1270,14 @@ func (in *inst) stmt(s ast.Stmt) []ast.Stmt {
 		}
 		if hasDefault {
 			return []ast.Stmt{stmtOf(call("zzverifEnter")), s}
+		}
+		if in.opt.poll {
+			// L: zzverifEnter(); select { arms…; default: zzverifLeave(); zzverifPause(); goto L }
+			in.nlab++
+			lab := fmt.Sprintf("zzverifPoll%d", in.nlab)
+			v.Body.List = append(v.Body.List, &ast.CommClause{Body: []ast.Stmt{stmtOf(call("zzverifLeave")), stmtOf(call("zzverifPause")),
+				&ast.BranchStmt{Tok: token.GOTO, Label: ident(lab)}}})
+			return []ast.Stmt{&ast.LabeledStmt{Label: ident(lab), Stmt: stmtOf(call("zzverifEnter"))}, s}
 		}
 		return []ast.Stmt{s}
 	case *ast.DeclStmt:
@@ -1167,6 +1335,69 @@ func (in *inst) armName(comm ast.Stmt) string {
 	return "?"
 }
 
+// recvOk: the name of the ok variable of a two-valued receive arm (`x, ok := <-ch`), or "".
+func recvOk(comm ast.Stmt) string {
+	if a, ok := comm.(*ast.AssignStmt); ok && len(a.Lhs) == 2 && len(a.Rhs) == 1 {
+		if u, ok := a.Rhs[0].(*ast.UnaryExpr); ok && u.Op == token.ARROW {
+			if id, ok := a.Lhs[1].(*ast.Ident); ok && id.Name != "_" {
+				return id.Name
+			}
+		}
+	}
+	return ""
+}
+
+// pollRange: `for k := range recv.f { body }` over a channel field (options poll + chan=f) becomes
+//
+//	R: for { zzverifEnter(); select {
+//	   case k, zzverifOk := <-recv.f: log Range:Recv(f) ok; zzverifLeave(); if !zzverifOk { break R }; body
+//	   default: zzverifLeave(); zzverifPause() } }
+func (in *inst) pollRange(v *ast.RangeStmt, f string) []ast.Stmt {
+	if v.Value != nil || (v.Key != nil && v.Tok != token.DEFINE) || hasBareBreak(v.Body) {
+		in.fail(v, "channel range of this shape")
+		return []ast.Stmt{v}
+	}
+	in.nlab++
+	lab := fmt.Sprintf("zzverifRange%d", in.nlab)
+	var key ast.Expr = ident("_")
+	if v.Key != nil {
+		key = v.Key
+	}
+	recv := &ast.AssignStmt{Lhs: []ast.Expr{key, ident("zzverifOk")}, Tok: token.DEFINE,
+		Rhs: []ast.Expr{&ast.UnaryExpr{Op: token.ARROW, X: v.X}}}
+	body := []ast.Stmt{
+		&ast.AssignStmt{Lhs: []ast.Expr{ident("_")}, Tok: token.ASSIGN,
+			Rhs: []ast.Expr{call("zzverifInV", in.site("Range:Recv("+f+")"), ident("zzverifOk"))}},
+		stmtOf(call("zzverifLeave")),
+		&ast.IfStmt{Cond: &ast.UnaryExpr{Op: token.NOT, X: ident("zzverifOk")},
+			Body: &ast.BlockStmt{List: []ast.Stmt{&ast.BranchStmt{Tok: token.BREAK, Label: ident(lab)}}}},
+	}
+	body = append(body, v.Body.List...)
+	sel := &ast.SelectStmt{Body: &ast.BlockStmt{List: []ast.Stmt{
+		&ast.CommClause{Comm: recv, Body: body},
+		&ast.CommClause{Body: []ast.Stmt{stmtOf(call("zzverifLeave")), stmtOf(call("zzverifPause"))}},
+	}}}
+	loop := &ast.ForStmt{Body: &ast.BlockStmt{List: []ast.Stmt{stmtOf(call("zzverifEnter")), sel}}}
+	return []ast.Stmt{&ast.LabeledStmt{Label: ident(lab), Stmt: loop}}
+}
+
+// hasBareBreak: an unlabelled break that would leave the range loop itself
+func hasBareBreak(b *ast.BlockStmt) bool {
+	found := false
+	ast.Inspect(b, func(n ast.Node) bool {
+		switch x := n.(type) {
+		case *ast.ForStmt, *ast.RangeStmt, *ast.SwitchStmt, *ast.TypeSwitchStmt, *ast.SelectStmt, *ast.FuncLit:
+			return false
+		case *ast.BranchStmt:
+			if x.Tok == token.BREAK && x.Label == nil {
+				found = true
+			}
+		}
+		return !found
+	})
+	return found
+}
+
 func (in *inst) stmtHasSync(s ast.Stmt) bool {
 	found := false
 	ast.Inspect(s, func(n ast.Node) bool {
@@ -1205,7 +1436,8 @@ func main() {
 	flag.Parse()
 	pkgs := map[string]string{}
 	var fails []string
-	for _, rel := range flag.Args() {
+	for _, spec := range flag.Args() {
+		rel, opt := parseSpec(spec)
 		path := filepath.Join(*root, rel)
 		fset := token.NewFileSet()
 		f, err := parser.ParseFile(fset, path, nil, parser.ParseComments)
@@ -1242,10 +1474,13 @@ func main() {
 				}
 			}
 			name := fd.Name.Name
+			if opt.skip[name] {
+				continue
+			}
 			if typ != "" {
 				name = typ + "_" + name
 			}
-			in := &inst{fset: fset, fn: name, recv: recv, snap: snapTypes[typ], obj: objTypes[typ] && recv != "", atomicFields: atomicFields}
+			in := &inst{fset: fset, fn: name, recv: recv, snap: snapTypes[typ], obj: objTypes[typ] && recv != "", atomicFields: atomicFields, opt: opt, res: resultTypes(fd.Type)}
 			in.locals, in.ctxName = declared(fd)
 			in.block(fd.Body)
 			fails = append(fails, in.fails...)
